@@ -9,6 +9,7 @@ import (
 	"math/rand"
 	"net/http"
 	"runtime"
+	"sort"
 	"strings"
 	"sync"
 	"sync/atomic"
@@ -129,10 +130,23 @@ type c04SwapIn struct {
 	Seed   int64   `json:"seed"`
 }
 
+type c04SwapHist struct {
+	Lo  int64  `json:"lo"`  // last installation completed when the call began
+	Hi  int64  `json:"hi"`  // last installation started when the call returned
+	URL string `json:"url"` // chosen server ("" = nil)
+	N   int64  `json:"n"`
+}
+
 type c04SwapObs struct {
-	Total  int64 `json:"total"`
-	Bad    int64 `json:"bad"`    // choices that belong to no list current during the call
-	Panics int64 `json:"panics"`
+	Total  int64         `json:"total"`
+	Bad    int64         `json:"bad"` // choices that belong to no list current during the call (harness-side count)
+	Panics int64         `json:"panics"`
+	Hist   []c04SwapHist `json:"hist"` // all non-panicking selections aggregated; the Coq side decides membership
+}
+
+type c04SwapKey struct {
+	lo, hi int64
+	url    string
 }
 
 func c04StaticURL(i int) string { return fmt.Sprintf("http://st%d.test", i) }
@@ -460,10 +474,12 @@ func c04RunSwap(in c04SwapIn) (obs c04SwapObs) {
 	var wg sync.WaitGroup
 	begin := make(chan struct{})
 	root := vfNewRand(uint64(in.Seed))
+	hists := make([]map[c04SwapKey]int64, in.G)
 	for g := 0; g < in.G; g++ {
 		wg.Add(1)
 		r := root.Fork(g)
-		go func(r *vfRand) {
+		hists[g] = map[c04SwapKey]int64{}
+		go func(r *vfRand, hist map[c04SwapKey]int64) {
 			defer wg.Done()
 			req := c04MakeReq(c04Req{Remote: fmt.Sprintf("10.2.%d.%d:99", r.Intn(250), r.Intn(250)), HName: "X-Key", HVal: fmt.Sprintf("v%d", r.Intn(1000))})
 			<-begin
@@ -486,6 +502,11 @@ func c04RunSwap(in c04SwapIn) (obs c04SwapObs) {
 					atomic.AddInt64(&panics, 1)
 					continue
 				}
+				u := ""
+				if s != nil {
+					u = s.URL
+				}
+				hist[c04SwapKey{lo, hi, u}]++
 				ok := false
 				for j := lo; j <= hi && !ok; j++ {
 					if s == nil {
@@ -498,7 +519,7 @@ func c04RunSwap(in c04SwapIn) (obs c04SwapObs) {
 					atomic.AddInt64(&bad, 1)
 				}
 			}
-		}(r)
+		}(r, hists[g])
 	}
 	wg.Add(1)
 	go func() {
@@ -517,6 +538,26 @@ func c04RunSwap(in c04SwapIn) (obs c04SwapObs) {
 	close(begin)
 	wg.Wait()
 	obs.Total, obs.Bad, obs.Panics = total, bad, panics
+	merged := map[c04SwapKey]int64{}
+	for _, h := range hists {
+		for k, n := range h {
+			merged[k] += n
+		}
+	}
+	obs.Hist = []c04SwapHist{}
+	for k, n := range merged {
+		obs.Hist = append(obs.Hist, c04SwapHist{Lo: k.lo, Hi: k.hi, URL: k.url, N: n})
+	}
+	sort.Slice(obs.Hist, func(i, j int) bool {
+		a, b := obs.Hist[i], obs.Hist[j]
+		if a.Lo != b.Lo {
+			return a.Lo < b.Lo
+		}
+		if a.Hi != b.Hi {
+			return a.Hi < b.Hi
+		}
+		return a.URL < b.URL
+	})
 	return
 }
 
